@@ -96,6 +96,14 @@ func (h *HistGen) Doc(id string) map[string]interface{} {
 	}
 	if h.G.pick(12) == 0 {
 		m["arr"] = []interface{}{h.val(), h.val()}
+		if h.G.pick(3) == 0 {
+			// a long, unsorted array (a criteria or an index that works on the document's own slice would show)
+			arr := []interface{}{}
+			for i := 0; i < 8+h.G.pick(6); i++ {
+				arr = append(arr, h.val())
+			}
+			m["arr"] = arr
+		}
 	}
 	if h.G.pick(25) == 0 {
 		m["_expiresAt"] = boundaryTimes()[3+h.G.pick(7)] // an expiration time (any other type is refused by Validate)
@@ -388,7 +396,12 @@ func (h *HistGen) History(cfg HistCfg) []J {
 				if cfg.Malformed && h.G.pick(25) == 0 {
 					id = []string{"not-a-uuid", "0000", strings.Repeat("z", 36), "00000000-0000-0000-0000-00000000000"}[h.G.pick(4)]
 				}
-				docs = append(docs, encDoc(h.Doc(id)))
+				dm := h.Doc(id)
+				if cfg.Malformed && h.G.pick(30) == 0 {
+					// an _id that is present but not a string (a number, a bool, a map, nil): malformed, to be rejected like any other
+					dm["_id"] = []interface{}{int64(42), true, map[string]interface{}{"a": int64(1)}, nil, float64(1.5), []interface{}{"x"}}[h.G.pick(6)]
+				}
+				docs = append(docs, encDoc(dm))
 			}
 			ln = opLine("insert", J{"coll": hx(c), "docs": docs})
 		case r < 36:
@@ -396,7 +409,11 @@ func (h *HistGen) History(cfg HistCfg) []J {
 			if h.G.pick(3) == 0 && !cfg.NoFresh {
 				id = ""
 			}
-			ln = opLine("save", J{"coll": hx(c), "doc": encDoc(h.Doc(id))})
+			sd := h.Doc(id)
+			if cfg.Malformed && h.G.pick(15) == 0 {
+				sd["_id"] = []interface{}{int64(42), false, map[string]interface{}{}, nil}[h.G.pick(4)]
+			}
+			ln = opLine("save", J{"coll": hx(c), "doc": encDoc(sd)})
 		case r < 42:
 			id := h.someId()
 			did := id
